@@ -57,6 +57,7 @@ var extraProps = map[string][]string{
 	// (C02: a kept Root never changes; C07: a published version is announced by name; C08: the name is the hash of what was written)
 	// C14: the Root records the node format the version was written in; a persist that drops it re-writes a legacy tree in the default format (C14-m43)
 	"ROOTFIELDS":         {"C04", "C02", "C07", "C08", "C15", "C14"},
+	"CBPROP":             {"C07"}, // DiffLinks runs the same driver: a step error that is retried or dropped ends the node diff "successfully" with names missing (C07-m43)
 	"NAVCOMMIT":          {"C10"}, // a placement (Min/Max/Ceil) or step that fails half-way and is retried must land where the sorted sequence says: a cursor emptied by a failed Max reports 'no entry' on a non-empty tree (C10-m42)
 	"KEYOPAQUE":          {"C09", "C04"}, // keys ordered natively in one place and by the configured comparator elsewhere end up out of order in persisted nodes
 	"ROOTEXACT":          {"C01"},        // a legal stored node that is refused makes every operation on the reloaded tree fail
